@@ -15,6 +15,10 @@ PENDING = "check not built yet (implementation in progress); the design is in DE
 
 VPNOTE = 'Trusted: clang AST, the path engine, the fact language of sa/vp.py (what counts as a reducing producer / accepted test is listed there), buffer identity by carve expression; frozen per-function tables (point-validation level, accepted alternative forms) carry one reason each. Decides necessary structural conditions, not the numerical statements of the property.'
 CHECKS = {
+ "C14": dict(level="other",
+   text="Information-flow analysis on the LLVM IR that clang 14 emits from the current tree (quick: -O2; thorough: -O1/-O2/-O3) for all 83 units: no conditional branch, switch or indirect branch condition depends on secret data in (G1) the 33 regular editions (discovered as the functions that also have a _fast twin), (G2) the nine verification steps, which must also compare through the regular memEq/memIsZero, and (G3) the ~75 entry points of the symmetric primitives; secrets are seeded only at entry points and the set of secret state fields (down to array sub-offsets) is inferred by a fixpoint. One compiler-specific finding (clang turns SAFE(memCmp)'s final mask into a branch) is listed as known; one genuine finding (branching carry of the secret CTR counter) was fixed. `SAFE equals FAST for all inputs' is a value statement and is declined.",
+   design="4/C14", technique="taint / information-flow analysis on optimised LLVM IR with parametric function summaries",
+   note="Trusted: clang's IR at the analysed levels (the x86 backend may still lower a select to a branch; other compilers, e.g. the gcc that built the baseline, are not covered), tools/irdump.cc, the memory abstraction of sa/ct.py (one cell per struct field and sub-offset, flow-insensitive), AST-derived state struct layouts; return values of proved regular editions are declassified; memWipe is opaque (it scans memory it has just overwritten)."),
  "C08": dict(level="other",
    text="Relational abstract interpretation (linear inequalities, Fourier-Motzkin implication, bounded disjunction, widening) of the 24 DER/APDU leaf decoders: every read of the input is proved to lie inside the remaining length on all abstract states, every DER decoder returns SIZE_MAX or a consumed length <= its input (callee contracts used as facts and proved for the callees), the remaining length never wraps, no bool constant travels through the size_t error channel; plus a typestate over all of src/ that every result of a SIZE_MAX-channel function is examined before it is used as a length/offset. Termination, output-buffer bounds, canonicality and encode/decode inversion are not decided.",
    design="4/C08", technique="abstract interpretation (polyhedra-lite domain) over the CFG + typestate on error-channel results",
